@@ -46,3 +46,19 @@ package settings
 //@   ensures[persisted_filesystem_settings] calls("settings.SaveSettingsToFilesystem") > old(calls("settings.SaveSettingsToFilesystem")) && !inMemorySwamp && filesystemSettings != nil ==> s.model.Patterns[icall("Get", pattern)].WriteIntervalSec == old(filesystemSettings.WriteIntervalSec) && s.model.Patterns[icall("Get", pattern)].MaxFileSizeByte == old(filesystemSettings.MaxFileSizeByte)
 //@   ensures[runtime_table_has_pattern] calls("settings.SaveSettingsToFilesystem") > old(calls("settings.SaveSettingsToFilesystem")) ==> has(s.patterns, icall("Get", pattern))
 //@   ensures[saved_after_every_change] calls("New") > old(calls("New")) ==> calls("settings.SaveSettingsToFilesystem") == old(calls("settings.SaveSettingsToFilesystem")) + 1
+
+// loadSettingsFromFilesystem (property C21, "the same settings apply again after a restart"): every
+// pattern entry read from the settings file is restored, in the same iteration, into the runtime table
+// under its own canonical name, as a setting built from exactly the persisted values (in-memory flag, idle
+// timeout, write interval, file size; seconds converted to durations). Reading and decoding the file
+// itself (os.ReadFile, encoding/json) is assumed.
+//@ trusted func os.ReadFile(p) (data, err)
+//@ trusted func encoding/json.Unmarshal(data, v) (err)
+//@ trusted func encoding/json.MarshalIndent(v, prefix, indent) (out, err)
+//@ func (*settings).loadSettingsFromFilesystem(s) (err)
+//@   property C21
+//@   overflow: assumed
+//@   requires[tables] s.patterns != nil
+//@   requires[entries] s.model != nil && s.model.Patterns != nil ==> forall k in keys(s.model.Patterns): s.model.Patterns[k] != nil
+//@   modifies *
+//@   loop 0 iteration[every_persisted_pattern_is_restored_with_its_persisted_settings] calls("New") == old(calls("New")) + 1 && has(s.patterns, pattern.NameCanonicalForm) && s.patterns[pattern.NameCanonicalForm] == lastret("New") && lastarg("New", 0).InMemory == pattern.InMemory && lastarg("New", 0).CloseAfterIdleSec == pattern.CloseAfterIdleSec * 1000000000 && lastarg("New", 0).WriteIntervalSec == pattern.WriteIntervalSec * 1000000000 && lastarg("New", 0).MaxFileSizeByte == pattern.MaxFileSizeByte
